@@ -372,7 +372,7 @@ RunCanSendReg(c, t, now) == Running(c, t) /\ c.rt[t].pc = "reg" /\ now >= c.rt[t
 \* only what is (still) pending for the tower is sent.  S21: the retrier sends whatever is in its set and still stored
 \* (a revocation notified again while the retrier was delivering it comes back to the set after the delivery) and
 \* aborts, holding the state mutex, when the appointment is not stored any more.
-Sendable(c, t, l) == l \in c.st.db.bodies /\ (Ref(t, l) \in c.st.db.pend \/ Dev("S21"))
+Sendable(c, t, l) == Dev("S21") \/ (l \in c.st.db.bodies /\ Ref(t, l) \in c.st.db.pend)
 \* nothing is sent to a tower proven misbehaving (S18: the loop does not look)
 Stopped(c, t) == Known(c, t) /\ Status(c, t) = "misbehaving" /\ ~Dev("S18")
 RunCanSendAdd(c, t, l, now) == /\ Running(c, t) /\ c.rt[t].pc = "loop" /\ l \in c.rt[t].pend /\ Sendable(c, t, l)
